@@ -271,6 +271,24 @@ Theorem C20_failed_fsync_pinned_refuted : ff_history false = VVal (Some [118]) /
 Proof. split; [exact pinned_bookkeeping_resurrects|exact repaired_bookkeeping_does_not]. Qed.
 Print Assumptions C20_failed_fsync_pinned_refuted.
 
+(* (f) the per-file counters after the failed fsync are still exact with respect to the index (live = entries the index
+       points at, dead and dead bytes = all other entries of the file): the record is booked as what it is, one dead entry
+       of its size; under the pinned bookkeeping it is in the file and in no counter. *)
+Theorem C20_failed_fsync_counters_exact : forall s k v s' t, Inv s -> failed_fsync true s k v = ROk (s', t) ->
+  forall g, live (sget0 (s_stats s') g) = nlive (slog s') (s_idx s') g /\
+            dead (sget0 (s_stats s') g) = ndead (slog s') (s_idx s') g /\
+            dead_bytes (sget0 (s_stats s') g) = bdead (slog s') (s_idx s') g.
+Proof. exact failed_fsync_counters_exact. Qed.
+Print Assumptions C20_failed_fsync_counters_exact.
+
+Theorem C20_failed_fsync_pinned_counters_refuted :
+  match failed_fsync false ff_before [107] (Some [118]) with
+  | ROk (s', _) => ndead (slog s') (s_idx s') (s_active s') = 1 /\ dead (sget0 (s_stats s') (s_active s')) = 0
+  | _ => False
+  end.
+Proof. exact pinned_counters_miss_the_record. Qed.
+Print Assumptions C20_failed_fsync_pinned_counters_refuted.
+
 (* non-vacuity: the state the history starts from is an invariant state, and the failed fsync is defined on it *)
 Example C20_failed_fsync_example : Inv ff_before /\ exists s' t, failed_fsync true ff_before [107] (Some [118]) = ROk (s', t).
 Proof. split; [exact ff_before_inv|]. vm_compute. eauto. Qed.
